@@ -15,10 +15,24 @@ Local Open Scope N_scope.
 (* trigger true and override false: sync stops with a failing status, having emitted nothing but WLock / WLog.
    TShortParity is evaluated on the parity really present in the files (parity_valid_size, fix 03a455c), in every content
    format: p_parity_blocks is valid_size / block size of each level. *)
-Theorem C14_interlock_refuses : forall t o p, fires t p = true -> overridden t o = false ->
+Theorem C14_interlock_refuses : forall t o p, no_parity_absent p -> fires t p = true -> overridden t o = false ->
   exitc Sync o p = ExRefused /\ forall e, In e (effects Sync o p) -> e = WLock \/ e = WLog.
-Proof. exact interlock_refuses. Qed.
+Proof. exact interlock_refuses_strict. Qed.
 Print Assumptions C14_interlock_refuses.
+
+(* Without the hypothesis `no_parity_absent` (every configured parity file exists) the refusal still holds, but "changes
+   nothing" is false to the letter: sync.c creates the missing parity files (parity_create, O_CREAT) BEFORE the size test.
+   Full-strength statement: forall c o p e, exitc c o p = ExRefused -> In e (effects c o p) -> e = WLock \/ e = WLog.
+   REFUTED (finding F-C14-refused-sync-creates-empty-parity-file): *)
+Theorem C14_refusal_changes_nothing_refuted : exists o p e,
+  exitc Sync o p = ExRefused /\ In e (effects Sync o p) /\ e <> WLock /\ e <> WLog.
+Proof. exact refusal_changes_nothing_refuted. Qed.
+Print Assumptions C14_refusal_changes_nothing_refuted.
+(* what a refused sync may have done at most: lock, log, creation of parity files that did not exist *)
+Theorem C14_interlock_refuses_general : forall t o p, fires t p = true -> overridden t o = false ->
+  exitc Sync o p = ExRefused /\ forall e, In e (effects Sync o p) -> (e = WLock \/ e = WLog) \/ is_creation p e.
+Proof. exact interlock_refuses. Qed.
+Print Assumptions C14_interlock_refuses_general.
 
 (* the parity really present never exceeds what the content file records, and equals it when no split file is shorter than
    recorded; the rule used before 03a455c (recorded sizes) could not see a truncated or recreated file *)
@@ -60,7 +74,7 @@ Theorem C14_sync_refused_iff : forall o p, exitc Sync o p = ExRefused <-> sync_r
 Proof. exact sync_refused_iff. Qed.
 Print Assumptions C14_sync_refused_iff.
 
-Theorem C14_refusal_changes_nothing : forall c o p e, exitc c o p = ExRefused -> In e (effects c o p) -> e = WLock \/ e = WLog.
+Theorem C14_refusal_changes_nothing : forall c o p e, no_parity_absent p -> exitc c o p = ExRefused -> In e (effects c o p) -> e = WLock \/ e = WLog.
 Proof. exact refused_only_lock_log. Qed.
 Print Assumptions C14_refusal_changes_nothing.
 
@@ -70,10 +84,26 @@ Theorem C14_empty_rule : forall d, empty_trigger_disk d = true <->
   ds_equal d = 0 /\ ds_move d = 0 /\ ds_restore d = 0 /\ (ds_remove d <> 0 \/ ds_change d <> 0).
 Proof. exact empty_trigger_disk_iff. Qed.
 Print Assumptions C14_empty_rule.
-Theorem C14_empty_rule_ignores_new_files : forall e m r rm ch i1 c1 i2 c2 z1 z2,
-  empty_trigger_disk (mkDS e m r rm ch i1 c1 z1) = empty_trigger_disk (mkDS e m r rm ch i2 c2 z2).
+Theorem C14_empty_rule_ignores_new_files : forall e m r rm ch el i1 c1 i2 c2 z1 z2,
+  empty_trigger_disk (mkDS e m r rm ch el i1 c1 z1) = empty_trigger_disk (mkDS e m r rm ch el i2 c2 z2).
 Proof. exact empty_trigger_ignores_new_files. Qed.
 Print Assumptions C14_empty_rule_ignores_new_files.
+
+(* Links.  The property says "all FILES previously known on a data disk are missing or rewritten"; scan.c counts an unchanged
+   symbolic link / hardlink in `equal`.  `empty_trigger_files` is the rule on files only (equal minus the links counted in it).
+   Full-strength statement:
+       forall o p, empty_trigger_files p = true -> o_force_empty o = false -> exitc Sync o p = ExRefused
+   REFUTED by the faithful model (finding F-C14-links-disarm-empty-disk-interlock): *)
+Theorem C14_empty_rule_links_refuted : exists o p,
+  empty_trigger_files p = true /\ o_force_empty o = false /\ exitc Sync o p = ExOk.
+Proof. exact empty_rule_links_refuted. Qed.
+Print Assumptions C14_empty_rule_links_refuted.
+(* ... and it holds with the exact extra hypothesis: no unchanged link is counted on any disk *)
+Theorem C14_empty_rule_files_partial : forall o p, (forall d, In d (p_disks p) -> ds_equal_links d = 0) ->
+  empty_trigger_files p = true -> o_force_empty o = false ->
+  exitc Sync o p = ExRefused /\ forall e, In e (effects Sync o p) -> (e = WLock \/ e = WLog) \/ is_creation p e.
+Proof. exact empty_rule_files_refuses. Qed.
+Print Assumptions C14_empty_rule_files_partial.
 
 (* the lock: held by another command, every command that takes the lock is refused at once *)
 Theorem C14_lock_held_refuses : forall c o p, opts_compatible c o = true -> p_conf_ok p = true ->
